@@ -29,21 +29,40 @@ def collect(ctx, h, label, tag):
 def registry_part(ctx, nmax, tag):
     """shared by C01, C05, C11: step, side obligations, From<Registry>, vacuity and negative controls. returns list of cex dicts"""
     cexs = []
-    h = run_harness(ctx, 'register_type-step', regstep.body_register_type())
-    cexs += collect(ctx, h, 'register_type step', tag)
-    classes = {r.get('cls') for r in h.results}
-    if not cexs and classes != {'known', 'new'}: raise CheckInconclusive('vacuity: register_type paths reached: %s' % classes)
+    ctx.deferred = getattr(ctx, 'deferred', [])
+    def attempt(name, body, **kw):
+        try:
+            return run_harness(ctx, name, body, **kw)
+        except CheckInconclusive as e:
+            ctx.deferred.append('%s: %s' % (name, str(e)[:260]))
+            if ctx.harnesses and ctx.harnesses[-1].name == name: ctx.harnesses.pop()
+            return None
+    h = attempt('register_type-step', regstep.body_register_type())
+    if h is not None:
+        cexs += collect(ctx, h, 'register_type step', tag)
+        classes = {r.get('cls') for r in h.results}
+        if not cexs and classes != {'known', 'new'}: raise CheckInconclusive('vacuity: register_type paths reached: %s' % classes)
     h = run_harness(ctx, 'side-obligations', regstep.body_side(), jobs=1)
     cexs += collect(ctx, h, 'side obligations', tag)
     for n in range(nmax + 1):
-        h = run_harness(ctx, 'from-registry-%d' % n, regstep.body_from_registry(n), jobs=1)
+        h = attempt('from-registry-%d' % n, regstep.body_from_registry(n), jobs=1)
+        if h is None: continue
         c = [r for r in h.results if r['kind'] == 'cex']; cexs += c
         ctx.obligations['From<Registry>: entry i carries id i and definition i, n=%d' % n] = 'sat' if c else 'unsat'
+    # bounded black-box histories on the real Registry (independent of the representation the step assumes)
+    for n in ((1, 2, 3, 24) if ctx.thorough() else (1, 2, 3, 20)):
+        h = attempt('registry-history-%d' % n, regstep.body_registry_history(n))
+        if h is None: continue
+        cexs += collect(ctx, h, 'registry history', tag)
     # negative controls: a wrong post-condition must be refuted; dropping a needed hypothesis must make the step fail (hypotheses are used, not vacuous)
-    hn = run_harness(ctx, 'negative-control-id', regstep.body_register_type(wrong='id')); ctx.harnesses.pop()
-    if not any(r['kind'] == 'cex' for r in hn.results): raise CheckInconclusive('negative control (id == n+1) not refuted')
-    hn = run_harness(ctx, 'negative-control-hyp', regstep.body_register_type(drop=2)); ctx.harnesses.pop()
-    if not any(r['kind'] == 'cex' for r in hn.results): raise CheckInconclusive('negative control (step without the "defined ids are interned" hypothesis) still passes: obligations vacuous')
+    hn = attempt('negative-control-id', regstep.body_register_type(wrong='id'))
+    if hn is not None:
+        ctx.harnesses.pop()
+        if not any(r['kind'] == 'cex' for r in hn.results): raise CheckInconclusive('negative control (id == n+1) not refuted')
+    hn = attempt('negative-control-hyp', regstep.body_register_type(drop=2))
+    if hn is not None:
+        ctx.harnesses.pop()
+        if not any(r['kind'] == 'cex' for r in hn.results): raise CheckInconclusive('negative control (step without the "defined ids are interned" hypothesis) still passes: obligations vacuous')
     ctx.notes.append('negative controls refuted: wrong post-condition; step with a needed invariant conjunct removed')
     ctx.samples.append({'obligation': '[new] no existing definition overwritten', 'hypotheses': 'INV(s0), R(s1,s2), INV(s2) instantiated at the returned id and skolems', 'verdict': 'unsat'})
     return cexs
@@ -51,7 +70,10 @@ def registry_part(ctx, nmax, tag):
 
 def confirm_registry(ctx, cexs, which):
     """a failed step obligation is reported only if the native registration-law battery fails too"""
-    if not cexs: return
+    if not cexs:
+        if getattr(ctx, 'deferred', None):
+            raise CheckInconclusive('part of the check cannot be executed on the current code and no violation was found by the rest: ' + '; '.join(ctx.deferred)[:1500])
+        return
     a = ctx.get_native().ask({'op': 'registry_laws', 'seed': ctx.seed})
     failing = [f for f in a.get('failed', []) if which is None or f.get('law') in which]
     if a.get('panic') or a.get('crashed'): failing = [{'law': 'panic', 'history': 'registry_laws battery panicked'}]
